@@ -64,18 +64,33 @@ def planted_state(rng, image_words, sp):
     return pc, a, b, o, words, kind
 
 
-def run_planted(img, inp, state, scratch):
+def run_planted(img, inp, state, scratch, seeds=(7,)):
+    """Run one planted state under several Verilator seeds (state elements the harness does not plant - e.g. a
+    register added to the memory or the top level - take different random values); the first failing run is returned."""
+    last = (None, 'no run')
+    for sd in seeds:
+        o, err = _run_planted_once(img, inp, state, scratch, sd)
+        last = (o, err)
+        if o is None:
+            return o, err
+        o['seed'] = sd
+        if o['p1_error'] or o['p2_error'] or o['p1_out'] or o['p1_consumed'] or o['p1_rc'] or o['p1_image_first_diff'] >= 0 or o['p1_pc'] or o['p1_areg'] or o['p1_breg'] or o['p1_oreg']:
+            return o, err
+    return last
+
+
+def _run_planted_once(img, inp, state, scratch, vseed):
     pc, a, b, o, words, kind = state
     ip = os.path.join(scratch, 'input')
     open(ip, 'wb').write(inp)
     exe = os.path.join(build.build('c13planted'), 'c13planted')
     args = [exe, img, ip, str(pc), str(a), str(b), str(o)] + ['%d=%d' % (k, v) for k, v in sorted(words.items())]
     try:
-        r = subprocess.run(args, stdout=subprocess.PIPE, stderr=subprocess.PIPE, cwd=scratch, timeout=120)
+        r = subprocess.run(args, stdout=subprocess.PIPE, stderr=subprocess.PIPE, cwd=scratch, timeout=120, env=dict(os.environ, C13_SEED=str(vseed)))
     except subprocess.TimeoutExpired:
         return None, 'hang'
     if r.returncode != 0:
-        return None, 'testbench crashed (status %d) from planted state %s' % (r.returncode, kind)
+        return None, 'testbench crashed (status %d) from planted state %s, seed %d' % (r.returncode, kind, vseed)
     try:
         return json.loads(r.stdout.decode().strip().splitlines()[-1]), ''
     except Exception:
@@ -173,10 +188,11 @@ def gen_case(rng, stats, extra):
         image_hex = open(img, 'rb').read().hex()
         if rng.random() < 0.6:
             state = planted_state(rng, words, spv)
-            o, err = run_planted(img, inp, state, scratch)
+            vseeds = [rng.randint(1, 2**31 - 1) for _ in range(3)]
+            o, err = run_planted(img, inp, state, scratch, vseeds)
             why = err if o is None else judge_planted(o, exp_out, exp_rc, exp_used)
             kind = 'planted:' + state[5]
-            case = dict(kind='planted', image=image_hex, input=inp.hex(), state=[state[0], state[1], state[2], state[3], {str(k): v for k, v in state[4].items()}, state[5]],
+            case = dict(kind='planted', image=image_hex, input=inp.hex(), vseeds=vseeds, state=[state[0], state[1], state[2], state[3], {str(k): v for k, v in state[4].items()}, state[5]],
                         exp_out=exp_out.hex(), exp_rc=exp_rc, exp_used=exp_used, source=src)
             nt = state[5] in ('svc', 'stam', 'stai', 'br', 'ldam')
             key = (image_hex, inp, state[:4], sorted(state[4].items()))
@@ -203,7 +219,7 @@ def replay_case(case):
         if case['kind'] == 'planted':
             st = case['state']
             state = (st[0], st[1], st[2], st[3], {int(k): v for k, v in st[4].items()}, st[5])
-            o, err = run_planted(img, inp, state, scratch)
+            o, err = run_planted(img, inp, state, scratch, case.get('vseeds', [7, 1, 2, 3, 4, 5, 6, 8]))
             why = err if o is None else judge_planted(o, *exp)
         else:
             why = judge_seed(run_seed(img, inp, case['seed'], scratch), *exp)
